@@ -238,7 +238,9 @@ def build_suite_tasks(
     ###
     # Build suite teardown task (if any)
     ###
-    suite_teardown_task = build_suite_teardown_task(suite, suite_setup_task, test_tasks)
+    # NB: a suite without test of its own must not run its teardown before its setup is complete
+    suite_teardown_dependencies = ([suite_setup_task] if suite_setup_task else []) + test_tasks
+    suite_teardown_task = build_suite_teardown_task(suite, suite_setup_task, suite_teardown_dependencies)
 
     ###
     # Build sub suite tasks
